@@ -54,9 +54,14 @@ def one(kind, name, claimed):
     try:
         if kind == "benign":
             bad = []
+            # expect.json: a refactor that *relocates* a genuine defect of the pinned tree (a known finding keyed by its site) is
+            # reported under the new site - a true report on that tree; the expected exit code per check is recorded with the reason
+            exp = {}
+            if os.path.exists(os.path.join(d, "expect.json")):
+                exp = {k: v for k, v in json.load(open(os.path.join(d, "expect.json"))).items() if k.startswith("C")}
             for pid in claimed:
                 code, lines = run_check(pid, sc)
-                if code != 0:
+                if code != exp.get(pid, 0):
                     bad.append("%s exit %d: %s" % (pid, code, " | ".join(l.strip()[:170] for l in lines[:3])))
             return name, not bad, bad
         meta = json.load(open(os.path.join(d, "meta.json")))
